@@ -40,7 +40,7 @@ def judge(run, cases, rows):
                         theorem="correspondence Arb.Model ~ internal/k8s/configuration.go (changes, problems)", found_input=False)
 
 
-CID, DX, DS, DC, DF, CNEV = range(6)
+CID, DX, DS, DC, DF, CNEV, DD, DK, DL = range(9)
 
 
 def judge_ctl(run, cases, rows):
@@ -56,6 +56,13 @@ def judge_ctl(run, cases, rows):
             run.failing({"kind": KIND.get(r[DC], str(r[DC])), "level": "controller-events", "event_kind": ev["spec"]["kind"]}, [c],
                         "C05: accumulating the Events recorded by the real LoadBalancerController.sync, after step %d of case %d %s; events of that step: %s"
                         % (r[DS], c["id"], WHAT.get(r[DC], r[DC]), json.dumps(c["ctl"][r[DS] - 1]["events"])[:500]), theorem="Arb.Cases.ctl_run")
+        elif r[DD] != 0 and r[DK] == 2:
+            ev = c["histories"][0]["events"][r[DD] - 1]
+            run.failing({"kind": "event-not-delivered", "event_kind": ev["spec"]["kind"]}, [c],
+                        "C05: at step %d of case %d the real informer handler drops a %s event about %s %s/%s that differs from the last one about that object: the controller "
+                        "never processes it and the resource is never told the outcome" % (r[DD], c["id"], (c["ctl"][r[DD] - 1].get("probe") or {}).get("kind"),
+                                                                                        ev["spec"]["kind"], ev["spec"].get("ns"), ev["spec"].get("name")),
+                        theorem="Arb.Cases.delivery_code")
         elif r[DX] != 0:
             run.failing({"kind": "correspondence", "part": "reports"}, [c],
                         "the reports the model derives from the change/problem lists (Arb.Cases.reports_of_step_ev, a transcription of processChanges / processProblems / "
